@@ -83,8 +83,10 @@ class Interstitial(object):
         # only really needed if we have a non-empty vector basis
         self.omega_invertible = True
         if self.NV > 0:
-            # invertible if inversion is present
-            self.omega_invertible = any(np.allclose(g.cartrot, -np.eye(self.dim)) for g in crys.G)
+            # invertible if inversion is present (and the network is connected: inversion can swap
+            # two disconnected networks, which leaves a null vector in the projected matrix)
+            self.omega_invertible = any(np.allclose(g.cartrot, -np.eye(self.dim)) for g in crys.G) and \
+                                    GFcalc.GFCrystalcalc.networkcount(jumpnetwork, self.N) == 1
         if self.omega_invertible:
             # invertible, so just use solve for speed (omega is technically *negative* definite)
             self.bias_solver = lambda omega, b: -solve(-omega, b, assume_a='pos')
